@@ -63,7 +63,7 @@ func VerifBatchDebounce() {
 	b.Close()
 	zzverif.WaitQuiescent()
 	zzverif.Assert(s.closed, "subscriber_channel_closed_after_close")
-	zzverif.Assert(zzverif.ThreadsAlive() == 0, "no_goroutine_left_after_close")
+	zzverif.Assert(zzverif.ThreadsAliveIs(0), "no_goroutine_left_after_close")
 	b.Batch(3, 0)
 	clk.Advance(2 * vInterval)
 	zzverif.WaitQuiescent()
